@@ -294,6 +294,32 @@ theorem C05_atomic {α : Type} (job : Nat → List α) (locks : Nat → Bool) (h
   rw [inv.wire_eq, this, List.append_nil]
 
 open XmppModel.SendLts in
+/-- atomicity and the shared encoder together: let every call hand one complete element
+(`job i`, its tokens *before* the stanza encoder) to the session's single encoder.  Whenever the
+lock is free, what the encoder has written for the whole interleaved run is the concatenation
+of what it writes for each finished call on its own — the per-call sequential model — and the
+encoder is back at depth 0, for any number of calls and every schedule -/
+theorem C05_atomic_encoded (cfg : Cfg) (fresh : String) (job : Nat → List Tok)
+    (hjob : ∀ i, ∃ n as body m, job i = .start n as :: body ++ [.stop m] ∧ balanced body = true)
+    (locks : Nat → Bool) (hl : ∀ i, locks i = true) (sched : List Nat) :
+    let s := run job locks (init Tok) sched
+    s.lock = none →
+      (encode cfg fresh 0 s.wire).1 = 0 ∧
+      (encode cfg fresh 0 s.wire).2 = (s.finished.map fun i => wireToks cfg fresh (job i)).flatten := by
+  intro s hnone
+  have hw := (C05_atomic job locks hl sched).2.2.2 hnone
+  have hflat : s.wire = (s.finished.map job).flatten := by
+    rw [hw, List.flatMap_def]
+  have := C05_encoder_sequence cfg fresh (s.finished.map job) (by
+    intro e he
+    obtain ⟨i, _, rfl⟩ := List.mem_map.mp he
+    exact hjob i)
+  rw [hflat]
+  refine ⟨this.1, ?_⟩
+  rw [this.2, List.map_map]
+  rfl
+
+open XmppModel.SendLts in
 /-- a finished call's block is on the wire, contiguous and whole -/
 theorem C05_atomic_block {α : Type} (job : Nat → List α) (locks : Nat → Bool) (hl : ∀ i, locks i = true)
     (sched : List Nat) (i : Nat) (hd : (run job locks (init α) sched).pc i = .done) :
